@@ -5,3 +5,6 @@ cd "$(dirname "$0")"
 . ./env.sh
 cd engine
 GOFLAGS=-mod=vendor go build -o ../bin/gowp .
+# layoutx: lists the calls of Encode/Decode methods (input of tools/layout_gen.py; standard library only)
+cd ../tools/layoutx
+GOFLAGS=-mod=mod go build -o ../../bin/layoutx .
